@@ -34,7 +34,23 @@ def cases(tier):
     return st.fixed_dictionaries({'code': programs, 'derivation': st.fixed_dictionaries({'frag': st.integers(0, 60), 'steps': _steps})})
 
 
-STRATEGIES = {'derived': cases}
+_flat_stmt = st.one_of(
+    st.tuples(st.sampled_from('abcd'), st.sampled_from(['0', '0', '1'])).map(lambda t: '%s = %s' % t),
+    st.tuples(st.sampled_from('abcd'), st.sampled_from('abcd')).map(lambda t: '%s = %s' % t),
+    st.tuples(st.sampled_from('abcd'), st.sampled_from('abcd'), st.sampled_from('abcd')).map(lambda t: '%s = %s + %s' % t),
+    st.sampled_from('abcd').map(lambda v: 'print(%s)' % v))
+
+
+def flat_cases(tier):
+    """Repetitive straight-line programs: many sibling statements that look alike, patterns made by dropping siblings and renaming
+    several identifiers - the situation in which sibling-order bookkeeping and placeholder conflicts interact."""
+    programs = st.lists(_flat_stmt, min_size=4, max_size=8).map(lambda l: '\n'.join(l) + '\n')
+    steps = st.lists(st.tuples(st.sampled_from(['drop', 'drop', 'rename', 'rename', 'rename', 'wild']), st.integers(0, 40), st.booleans()).map(list),
+                     min_size=2, max_size=6)
+    return st.fixed_dictionaries({'code': programs, 'derivation': st.fixed_dictionaries({'frag': st.just(0), 'steps': steps})})
+
+
+STRATEGIES = {'derived': cases, 'flat': flat_cases}
 
 
 def depth_of(tree, target_src):
@@ -116,4 +132,4 @@ def judge(case):
 
 def plan(tier):
     n = 500 if tier == 'quick' else 20000
-    return [Task('hyp', 'derived', shards=16, examples=scale(n))]
+    return [Task('hyp', 'derived', shards=8, examples=scale(n)), Task('hyp', 'flat', shards=8, examples=scale(3 * n))]
